@@ -3,7 +3,7 @@ from typing import cast
 
 from xdsl.context import Context
 from xdsl.dialects import arith, ptr
-from xdsl.dialects.builtin import FixedBitwidthType, IndexType, ModuleOp
+from xdsl.dialects.builtin import FixedBitwidthType, ModuleOp
 from xdsl.passes import ModulePass
 from xdsl.pattern_rewriter import (
     PatternRewriter,
@@ -24,7 +24,7 @@ class ConvertTypeOffsetOp(RewritePattern):
             )
         elem_type = cast(FixedBitwidthType, op.elem_type)
         rewriter.replace(
-            op, arith.ConstantOp.from_int_and_width(elem_type.size, IndexType())
+            op, arith.ConstantOp.from_int_and_width(elem_type.size, op.offset.type)
         )
 
 
